@@ -13,7 +13,10 @@ import (
 //     and Open() starting the count at 0;
 //   - the order in which findNode searches the three entry lists of a directory
 //     (`for _, x := range wd.<Field>`), and the order in which dir.ReadDir lists them
-//     (`for _, x := range p.pb.<Field>`).
+//     (`for _, x := range p.pb.<Field>`);
+//   - the body of ChangeDir, translated (translateChangeDir): whether it returns a new object or the receiver
+//     itself, where the new working directory comes from, and that every other field of the struct is the
+//     receiver's. The model's ChangeDir step (Model/C29.v step/chdir_wd) is defined from these.
 //
 // Anything else fails closed.
 func init() {
@@ -116,8 +119,17 @@ func init() {
 			failShape("Open: expected exactly one call of open")
 		}
 
+		fresh, wdMode, wdExpr, fields := translateChangeDir(f)
+
 		return genHeader +
 			fmt.Sprintf("Definition max_symlinks : nat := %d.\n", limit) +
+			"(* ChangeDir, translated statement by statement: does it return a NEW object (true) or the receiver itself (false);\n" +
+			"   where the new working directory comes from (0 = the parameter as given, 1 = filepath.Clean(parameter),\n" +
+			"   2 = filepath.Join(receiver.workingDir, parameter)); every other field is the receiver's. *)\n" +
+			"Definition view_fields : list string := " + coqStringList(fields) + ".\n" +
+			fmt.Sprintf("Definition chdir_fresh : bool := %v.\n", fresh) +
+			fmt.Sprintf("Definition chdir_wd : nat := %d.\n", wdMode) +
+			"Definition chdir_wd_expr : string := " + coqString(wdExpr) + ".\n" +
 			"Definition find_order : list string := " + coqStringList(rangeFields(findFunc(f, "CASFileSystem", "findNode"), []string{"wd"})) + ".\n" +
 			"Definition readdir_order : list string := " + coqStringList(rangeFields(findFunc(f, "dir", "ReadDir"), []string{"p", "pb"})) + ".\n"
 	}
@@ -164,4 +176,199 @@ func rangeFields(fn *ast.FuncDecl, base []string) []string {
 		failShape("%s: no range loops found", fn.Name.Name)
 	}
 	return out
+}
+
+// translateChangeDir translates the body of (*CASFileSystem).ChangeDir. Two statement shapes are understood:
+//
+//	return &CASFileSystem{f1: fs.f1, ..., workingDir: <wd>}          a new object; every field of the struct must be
+//	                                                                 listed and every field but workingDir must be the
+//	                                                                 receiver's field of the same name
+//	x := fs | x := *fs ; x.workingDir = <wd> ; return x | return &x  `x := fs` copies the POINTER (receiver is *T): x is the
+//	                                                                 receiver, the assignment re-roots it, fresh = false;
+//	                                                                 `x := *fs ... return &x` copies the struct, fresh = true
+//
+// <wd> is the parameter, filepath.Clean(parameter) or filepath.Join(fs.workingDir, parameter). Anything else fails closed.
+func translateChangeDir(f *ast.File) (fresh bool, wdMode int, wdExpr string, fields []string) {
+	// the struct's fields
+	for _, d := range f.Decls {
+		gd, ok := d.(*ast.GenDecl)
+		if !ok || gd.Tok != token.TYPE {
+			continue
+		}
+		for _, s := range gd.Specs {
+			ts := s.(*ast.TypeSpec)
+			if ts.Name.Name != "CASFileSystem" {
+				continue
+			}
+			st, ok := ts.Type.(*ast.StructType)
+			if !ok {
+				failShape("CASFileSystem is not a struct")
+			}
+			for _, fl := range st.Fields.List {
+				if len(fl.Names) == 0 {
+					failShape("CASFileSystem has an embedded field")
+				}
+				for _, n := range fl.Names {
+					fields = append(fields, n.Name)
+				}
+			}
+		}
+	}
+	hasWD := false
+	for _, n := range fields {
+		hasWD = hasWD || n == "workingDir"
+	}
+	if !hasWD {
+		failShape("CASFileSystem has no field workingDir")
+	}
+
+	fn := findFunc(f, "CASFileSystem", "ChangeDir")
+	if len(fn.Recv.List[0].Names) != 1 {
+		failShape("ChangeDir: unnamed receiver")
+	}
+	if _, ok := fn.Recv.List[0].Type.(*ast.StarExpr); !ok {
+		failShape("ChangeDir: the receiver is not a pointer")
+	}
+	recv := fn.Recv.List[0].Names[0].Name
+	if fn.Type.Params == nil || len(fn.Type.Params.List) != 1 || len(fn.Type.Params.List[0].Names) != 1 {
+		failShape("ChangeDir: expected exactly one parameter")
+	}
+	if id, ok := fn.Type.Params.List[0].Type.(*ast.Ident); !ok || id.Name != "string" {
+		failShape("ChangeDir: the parameter is not a string")
+	}
+	param := fn.Type.Params.List[0].Names[0].Name
+	if fn.Type.Results == nil || len(fn.Type.Results.List) != 1 {
+		failShape("ChangeDir: expected exactly one result")
+	}
+	if st, ok := fn.Type.Results.List[0].Type.(*ast.StarExpr); !ok {
+		failShape("ChangeDir: the result is not a pointer")
+	} else if id, ok := st.X.(*ast.Ident); !ok || id.Name != "CASFileSystem" {
+		failShape("ChangeDir: the result is not *CASFileSystem")
+	}
+
+	isIdent := func(e ast.Expr, name string) bool {
+		id, ok := e.(*ast.Ident)
+		return ok && id.Name == name
+	}
+	isRecvField := func(e ast.Expr, field string) bool {
+		sel, ok := e.(*ast.SelectorExpr)
+		return ok && isIdent(sel.X, recv) && sel.Sel.Name == field
+	}
+	wdOf := func(e ast.Expr) (int, string) {
+		if isIdent(e, param) {
+			return 0, param
+		}
+		if call, ok := e.(*ast.CallExpr); ok {
+			if sel, ok := call.Fun.(*ast.SelectorExpr); ok && isIdent(sel.X, "filepath") {
+				switch {
+				case sel.Sel.Name == "Clean" && len(call.Args) == 1 && isIdent(call.Args[0], param):
+					return 1, "filepath.Clean(" + param + ")"
+				case sel.Sel.Name == "Join" && len(call.Args) == 2 && isRecvField(call.Args[0], "workingDir") && isIdent(call.Args[1], param):
+					return 2, "filepath.Join(" + recv + ".workingDir, " + param + ")"
+				}
+			}
+		}
+		failShape("ChangeDir: the new working directory is not the parameter, filepath.Clean of it or filepath.Join(%s.workingDir, it)", recv)
+		return 0, ""
+	}
+
+	body := fn.Body.List
+	if len(body) == 0 {
+		failShape("ChangeDir: empty body")
+	}
+	ret, ok := body[len(body)-1].(*ast.ReturnStmt)
+	if !ok || len(ret.Results) != 1 {
+		failShape("ChangeDir: the last statement is not a return of one value")
+	}
+
+	// shape 1: return &CASFileSystem{...}
+	if len(body) == 1 {
+		un, ok := ret.Results[0].(*ast.UnaryExpr)
+		if !ok || un.Op != token.AND {
+			failShape("ChangeDir: a single return that is not &CASFileSystem{...}")
+		}
+		lit, ok := un.X.(*ast.CompositeLit)
+		if !ok || !isIdent(lit.Type, "CASFileSystem") {
+			failShape("ChangeDir: a single return that is not &CASFileSystem{...}")
+		}
+		seen := map[string]bool{}
+		for _, el := range lit.Elts {
+			kv, ok := el.(*ast.KeyValueExpr)
+			if !ok {
+				failShape("ChangeDir: positional composite literal")
+			}
+			k, ok := kv.Key.(*ast.Ident)
+			if !ok || seen[k.Name] {
+				failShape("ChangeDir: unexpected key in the composite literal")
+			}
+			seen[k.Name] = true
+			if k.Name == "workingDir" {
+				wdMode, wdExpr = wdOf(kv.Value)
+			} else if !isRecvField(kv.Value, k.Name) {
+				failShape("ChangeDir: field %s of the new filesystem is not %s.%s", k.Name, recv, k.Name)
+			}
+		}
+		for _, n := range fields {
+			if !seen[n] {
+				failShape("ChangeDir: field %s of CASFileSystem is not carried over to the new filesystem", n)
+			}
+		}
+		if len(seen) != len(fields) {
+			failShape("ChangeDir: the composite literal names a field the struct does not have")
+		}
+		return true, wdMode, wdExpr, fields
+	}
+
+	// shape 2: x := fs | *fs ; x.workingDir = <wd> ; return x | &x
+	def, ok := body[0].(*ast.AssignStmt)
+	if !ok || def.Tok != token.DEFINE || len(def.Lhs) != 1 || len(def.Rhs) != 1 {
+		failShape("ChangeDir: the first statement is not `x := ...`")
+	}
+	lhs, ok := def.Lhs[0].(*ast.Ident)
+	if !ok || lhs.Name == recv || lhs.Name == param || lhs.Name == "_" {
+		failShape("ChangeDir: the first statement is not `x := ...`")
+	}
+	x := lhs.Name
+	var structCopy bool
+	switch r := def.Rhs[0].(type) {
+	case *ast.Ident:
+		if r.Name != recv {
+			failShape("ChangeDir: `%s := %s` is not a copy of the receiver", x, r.Name)
+		}
+		structCopy = false // the pointer is copied, not the filesystem
+	case *ast.StarExpr:
+		if !isIdent(r.X, recv) {
+			failShape("ChangeDir: `%s := *...` does not dereference the receiver", x)
+		}
+		structCopy = true
+	default:
+		failShape("ChangeDir: `%s := ...` is neither the receiver nor *receiver", x)
+	}
+	assigned := 0
+	for _, st := range body[1 : len(body)-1] {
+		as, ok := st.(*ast.AssignStmt)
+		if !ok || as.Tok != token.ASSIGN || len(as.Lhs) != 1 || len(as.Rhs) != 1 {
+			failShape("ChangeDir: unexpected statement between `%s := ...` and the return", x)
+		}
+		sel, ok := as.Lhs[0].(*ast.SelectorExpr)
+		if !ok || !isIdent(sel.X, x) || sel.Sel.Name != "workingDir" {
+			failShape("ChangeDir: an assignment to something other than %s.workingDir", x)
+		}
+		wdMode, wdExpr = wdOf(as.Rhs[0])
+		assigned++
+	}
+	if assigned != 1 {
+		failShape("ChangeDir: expected exactly one assignment to %s.workingDir, found %d", x, assigned)
+	}
+	if structCopy {
+		un, ok := ret.Results[0].(*ast.UnaryExpr)
+		if !ok || un.Op != token.AND || !isIdent(un.X, x) {
+			failShape("ChangeDir: after `%s := *%s` the function does not return &%s", x, recv, x)
+		}
+		return true, wdMode, wdExpr, fields
+	}
+	if !isIdent(ret.Results[0], x) {
+		failShape("ChangeDir: after `%s := %s` the function does not return %s", x, recv, x)
+	}
+	return false, wdMode, wdExpr, fields
 }
